@@ -26,6 +26,8 @@ def ratchet_history(rng, maxlen=10):
             h.append({"op": "edit", "state": prev[:i] + rng.choice("-uwo") + prev[i + 1:]})
         elif r < 0.42:
             h.append({"op": "update", "mode": rng.choice("aacsn"), "we": rng.random() < 0.5})
+        elif r < 0.47:
+            h.append({"op": "respell"})
         else:
             fl = {"b": True}
             fl[rng.choice(["rc", "rc", "rg"])] = rng.choice("waas")
